@@ -113,12 +113,14 @@ func cmdRand(args []string) {
 		p := dh.GenPlan(r, *maxv, *weird)
 		p.Run = *runBase + i + 1
 		p.G = fmt.Sprintf("g%d", p.Run)
-		res := dh.RunPlans([]*dh.Plan{&p})
 		if pw != nil {
+			// written (and flushed) before the run: if the library takes the whole process down, the plan is on disk
 			b, _ := json.Marshal(&p)
 			pw.Write(b)
 			pw.WriteByte('\n')
+			pw.Flush()
 		}
+		res := dh.RunPlans([]*dh.Plan{&p})
 		if res.Panic != "" {
 			res.Events = append(res.Events, dh.Event{Ev: "panic", G: p.G, K: res.Panic, Tags: [][]string{}, Order: []string{}, Tasks: []string{}})
 			stats["panic"]++
@@ -448,12 +450,13 @@ func cmdExhaust(args []string) {
 				for _, e := range seq {
 					p.History = append(p.History, dh.Op{Op: "dep", T: ids[e.t], D: ids[e.d]})
 				}
-				res := dh.RunPlans([]*dh.Plan{&p})
 				if pw != nil {
 					b, _ := json.Marshal(&p)
 					pw.Write(b)
 					pw.WriteByte('\n')
+					pw.Flush()
 				}
+				res := dh.RunPlans([]*dh.Plan{&p})
 				if res.Hang {
 					res.Events = append(res.Events, dh.Event{Ev: "hang", G: p.G, Tags: [][]string{}, Order: []string{}, Tasks: []string{}})
 				}
